@@ -302,6 +302,11 @@ func (f *Frame) callByContract(st *State, fi *FuncInfo, args []Term, tsub map[*t
 	env = bindSpec(sp, args, results)
 	sf = f.specFrame(sp, env, pre, tsub)
 	for _, c := range sp.Ensures {
+		if strings.HasPrefix(c.Label, "q_") {
+			// a "quiet" postcondition: proved for the callee, not handed to its callers (used for clauses whose
+			// quantifier alternation would set up matching loops in every caller's context)
+			continue
+		}
 		vc.assume(st, sf.expr(st, c.Expr))
 	}
 	if sp.Effect {
@@ -602,7 +607,7 @@ func (f *Frame) builtin(st *State, name string, call *ast.CallExpr) []Term {
 			for _, a := range call.Args[1:] {
 				f.expr(st, a)
 			}
-			return []Term{vc.newMap(st, ks, vs)}
+			return []Term{vc.newMapT(st, ks, vs, t)}
 		case *types.Slice:
 			n := f.expr(st, call.Args[1])
 			f.safe(st, app(SBool, ">=", n, IntLit(0)), "makelen", call.Pos())
@@ -637,7 +642,7 @@ func (f *Frame) builtin(st *State, name string, call *ast.CallExpr) []Term {
 	case "new":
 		t := f.typeOf(call.Args[0])
 		if stt, ok := t.Underlying().(*types.Struct); ok {
-			r := vc.newRef(st, "new")
+			r := vc.newRefT(st, "new", types.NewPointer(t))
 			f.initStructFields(st, r, structName(t), stt, nil, nil)
 			return []Term{r}
 		}
@@ -688,6 +693,21 @@ func (f *Frame) quantifier(st *State, call *ast.CallExpr, litArg int, exists boo
 		return Exists(vars, And(dom, body))
 	}
 	return Forall(vars, Imp(dom, body))
+}
+
+// litParamTypes: the (pointer) types of a quantifier body's bound variables.
+func (f *Frame) litParamTypes(e ast.Expr) []types.Type {
+	lit, ok := e.(*ast.FuncLit)
+	if !ok {
+		return nil
+	}
+	var out []types.Type
+	for _, fld := range lit.Type.Params.List {
+		for _, nm := range fld.Names {
+			out = append(out, f.subst(f.info().Defs[nm].Type()))
+		}
+	}
+	return out
 }
 
 // pureBody evaluates a function literal consisting of pure statements ending in return.
@@ -757,16 +777,34 @@ func (f *Frame) vsCall(st *State, name string, call *ast.CallExpr) []Term {
 		return []Term{f.quantifier(st, call, 2, name == "ExistsRange", func(vs []Term) Term {
 			return And(app(SBool, "<=", lo, vs[0]), app(SBool, "<", vs[0], hi))
 		})}
-	case "ForallInt", "ForallString", "ForallInt2":
+	case "ForallInt", "ForallString", "ForallInt2", "ForallRef":
 		return []Term{f.quantifier(st, call, 0, false, nil)}
 	case "ExistsInt", "ExistsString":
 		return []Term{f.quantifier(st, call, 0, true, nil)}
+	case "ForallOldPtr":
+		if f.old == nil {
+			vc.fail(call.Pos(), "ForallOldPtr outside a two-state context")
+		}
+		pts := f.litParamTypes(call.Args[0])
+		return []Term{f.quantifier(st, call, 0, false, func(vs []Term) Term {
+			var cs []Term
+			for i, v := range vs {
+				cs = append(cs, vc.isAlloc(f.old, v))
+				if i < len(pts) {
+					cs = append(cs, vc.hasType(v, pts[i]))
+				}
+			}
+			return And(cs...)
+		})}
 	case "ForallPtr", "ExistsPtr":
-		a := vc.alloc(st)
+		pts := f.litParamTypes(call.Args[0])
 		return []Term{f.quantifier(st, call, 0, name == "ExistsPtr", func(vs []Term) Term {
 			var cs []Term
-			for _, v := range vs {
-				cs = append(cs, Not(Eq(v, IntLit(0))), Select(a, v))
+			for i, v := range vs {
+				cs = append(cs, vc.isAlloc(st, v))
+				if i < len(pts) {
+					cs = append(cs, vc.hasType(v, pts[i]))
+				}
 			}
 			return And(cs...)
 		})}
@@ -798,7 +836,14 @@ func (f *Frame) vsCall(st *State, name string, call *ast.CallExpr) []Term {
 		vc.assume(st, Not(Eq(e, NilIface())))
 		return []Term{e}
 	case "IsAllocated":
-		return []Term{Select(vc.alloc(st), f.expr(st, call.Args[0]))}
+		// IsAllocated(p): p is a live object of its static (pointer / map) type
+		v := f.expr(st, call.Args[0])
+		at := types.Unalias(f.typeOf(call.Args[0]))
+		switch at.Underlying().(type) {
+		case *types.Pointer, *types.Map:
+			return []Term{And(vc.isAlloc(st, v), vc.hasType(v, at))}
+		}
+		return []Term{vc.isAlloc(st, v)}
 	case "Itoa":
 		return []Term{itoa(f.expr(st, call.Args[0]))}
 	case "StrPrefixOf":
@@ -871,7 +916,7 @@ func (f *Frame) libCall(st *State, fn *types.Func, call *ast.CallExpr) ([]Term, 
 		return []Term{e}, true
 	case "go/ast.NewIdent":
 		name := f.expr(st, call.Args[0])
-		r := vc.newRef(st, "ident")
+		r := vc.newRefT(st, "ident", f.typeOf(call))
 		key := fieldKey("ast.Ident", "Name")
 		h := vc.heapGet(st, key, ArraySort(SInt, SString))
 		vc.heapSet(st, key, vc.define("h", Store(h, r, name)))
@@ -879,7 +924,7 @@ func (f *Frame) libCall(st *State, fn *types.Func, call *ast.CallExpr) ([]Term, 
 	case "maps.Clone":
 		m := f.expr(st, call.Args[0])
 		ks, vs := vc.mapSorts(f.typeOf(call.Args[0]))
-		r := vc.newRef(st, "clone")
+		r := vc.newRefT(st, "clone", f.typeOf(call.Args[0]))
 		dom := vc.mapDom(st, ks)
 		val := vc.mapVal(st, ks, vs)
 		vc.heapSet(st, domKey(ks), vc.define("dom", Store(dom, r, Select(dom, m))))
